@@ -46,6 +46,13 @@ func (isn *InlineSchemaNamer) Name(key string, schema *spec.Schema, aschema *Ana
 			return ErrInlineDefinition(newName, err)
 		}
 
+		// NOTE: this extension is currently not used by go-swagger (provided for information only)
+		sch.AddExtension("x-go-gen-location", GenLocation(parts))
+
+		// save cloned schema to definitions: the $ref it may hold to the place it comes from
+		// are dependent $ref like the others
+		schutils.Save(isn.Spec, newName, sch)
+
 		// rewrite any dependent $ref pointing to this place,
 		// when not already pointing to a top-level definition.
 		//
@@ -73,12 +80,6 @@ func (isn *InlineSchemaNamer) Name(key string, schema *spec.Schema, aschema *Ana
 				return err
 			}
 		}
-
-		// NOTE: this extension is currently not used by go-swagger (provided for information only)
-		sch.AddExtension("x-go-gen-location", GenLocation(parts))
-
-		// save cloned schema to definitions
-		schutils.Save(isn.Spec, newName, sch)
 
 		// keep track of created refs
 		if isn.flattenContext == nil {
